@@ -18,7 +18,9 @@ def run(tier):
                           # backends whose range check compares the OWNERS of the two addresses (three-argument
                           # impl_is_in_same_sandbox, owner found by walking the live-sandbox list)
                           ("ptr_driver_exact", ["ptr_driver.cpp"], ["-DVM_EXACT_SAME_SANDBOX"], "-O2"),
-                          ("ptr_driver_exact_last", ["ptr_driver.cpp"], ["-DVM_EXACT_SAME_SANDBOX", "-DSBX_LAST"], "-O2")])
+                          ("ptr_driver_exact_last", ["ptr_driver.cpp"], ["-DVM_EXACT_SAME_SANDBOX", "-DSBX_LAST"], "-O2"),
+                          # ... and when the sandbox under test is the only live sandbox of its type
+                          ("ptr_driver_exact_alone", ["ptr_driver.cpp"], ["-DVM_EXACT_SAME_SANDBOX", "-DSBX_ALONE"], "-O2")])
     from concurrent.futures import ThreadPoolExecutor
 
     def one(abi):
@@ -30,8 +32,8 @@ def run(tier):
         for e in evs:
             e["abi"] = abi
         return evs, bd
-    with ThreadPoolExecutor(max_workers=5) as ex:
-        res = list(ex.map(one, ("wasm32", "lp16", "lp64u", "exact", "exact_last")))
+    with ThreadPoolExecutor(max_workers=6) as ex:
+        res = list(ex.map(one, ("wasm32", "lp16", "lp64u", "exact", "exact_last", "exact_alone")))
     events = [e for evs, _ in res for e in evs]
     bad = [b for _, bd in res for b in bd]
     combos = set()
@@ -51,7 +53,7 @@ def run(tier):
     chk.count(evaluations=len(events) + nf, distinct=len(combos) + len(cf), traces=1)
     chk.cov["exhaustive"] = True
     chk.cov["exhaustive_scope"] = "8/16-bit operands exhaustively (run-summarised) for + - += -= [] &[] on 11 pointee kinds " \
-                                  "x 3 bases, 3 guest ABIs, mask-based and owner-comparing range checks (pointer of the first / last created of three live sandboxes); 32/64-bit operands at boundary values (accepted-interval ends, type limits, " \
+                                  "x 3 bases, 3 guest ABIs, mask-based and owner-comparing range checks (pointer of the first created of three live sandboxes; of the last created after the oldest was destroyed; of the only live sandbox); 32/64-bit operands at boundary values (accepted-interval ends, type limits, " \
                                   "operands whose byte offset crosses 2^16..2^64) and seeded random values; plain, tainted " \
                                   "and tainted_volatile operands; null bases; ++/-- pre/post; operands read from a sandbox-memory cell that is rewritten after every read"
     chk.assumptions += ["flag-abort build; strides are the harness' own statement of the wasm32 sizes",
